@@ -12,6 +12,15 @@ from .process_executor import ProcessPoolExecutor, EXTRA_QUEUED_CALLS
 from .backend.context import cpu_count
 from .backend import get_context
 
+import os as _os
+
+if _os.environ.get("LOKY_VERIF"):
+    from ._verif_hooks import point as _verif_point
+else:
+
+    def _verif_point(label, **ctx):
+        return None
+
 __all__ = ["get_reusable_executor"]
 
 # Singleton executor and id management
@@ -239,6 +248,7 @@ class _ReusablePoolExecutor(ProcessPoolExecutor):
                 return
 
             self._wait_job_completion()
+            _verif_point("resize.after_wait_jobs")
 
             # Some process might have returned due to timeout so check how many
             # children are still alive. Use the _process_management_lock to
@@ -255,6 +265,7 @@ class _ReusablePoolExecutor(ProcessPoolExecutor):
                 time.sleep(1e-3)
 
             self._adjust_process_count()
+            _verif_point("resize.after_adjust")
             # Make the executor manager thread aware of the new workers: it
             # only watches the sentinels of the workers that existed when it
             # last went to sleep.
